@@ -5,6 +5,7 @@
    right-loose with the same spine), what the take loop adds (`takeLoop_good`), and the levels `pushOpenEnd` pushes
    (`ValR_of_coh_RL`: their matches are `pushOpenEnd_coh`, their validity the right-looseness of the last taken node). -/
 import Proofs.FitCloseStart
+import Proofs.NoInternal
 set_option linter.unusedVariables false
 namespace PM
 
@@ -566,7 +567,7 @@ theorem takeLoop_good_UL (S : Schema) (hdet : DetS S) (hleaf : PM.FromDom.LeafOk
         · exact absurd hr hne
         · exact RL_last S b _ hrl ln hln
 
-theorem fromArray_snoc_elem (l : List Node) (t : TypeId) (a : Attrs) (m : Marks) (k : List Node) :
+theorem fromArray_snoc_elem_eq (l : List Node) (t : TypeId) (a : Attrs) (m : Marks) (k : List Node) :
     fromArray (l ++ [.elem t a m k]) = fromArray l ++ [.elem t a m k] := by
   unfold fromArray addNodes
   rw [List.foldl_append]
@@ -941,11 +942,11 @@ theorem placeNodes_vinv_gen (S : Schema) (hts : TextStableP S) (hdet : DetS S) (
         intro mk' x' F0 hF0
         obtain ⟨h1, h2⟩ := hF0
         rw [e3]
-        rw [hadd0, er0, fromArray_snoc_elem, fappend_snoc_elem']
+        rw [hadd0, er0, fromArray_snoc_elem_eq, fappend_snoc_elem']
         refine ⟨_, t0, a0, m0, kk0, rfl, e4.symm, leftOpenValid_fappend S x' F0 _ h1 (fromArray_checkKids S _ hpre0),
           ?_, hm0, by rw [← e3]; exact hvalr⟩
         have := LevelR_add S hts mk' item q0 tk.2.1 F0 tk.2.2 h2 hitq0 hrun hgood.1
-        rw [hadd0, er0, fromArray_snoc_elem, fappend_snoc_elem'] at this
+        rw [hadd0, er0, fromArray_snoc_elem_eq, fappend_snoc_elem'] at this
         exact this
       refine ⟨min g f.frontierDepth, ?_⟩
       rw [e1]
@@ -1038,5 +1039,219 @@ theorem UL_drop (S : Schema) : ∀ (d os oe : Nat) (c c' : List Node) (count : N
       have : oe1 = 0 := by omega
       subst this
       exact ⟨oe, Nat.le_refl _, t, a, m, inner, rest, rfl, h1, h2, hm', .inr ⟨hr, hu1, hrl⟩⟩
+
+/-! ### sizes: when the fragment at a slice depth lies at the end of a single chain -/
+
+theorem UL_fsize_ge (S : Schema) : ∀ (sd os oe : Nat) (c F : List Node), UL S os oe c → sd ≤ os →
+    contentAt c sd = .ok F → fsize F + 2 * sd ≤ fsize c
+  | 0, os, oe, c, F, _, _, hc => by
+    have := pure_ok hc
+    subst this
+    omega
+  | sd + 1, os, oe, c, F, h, hle, hc => by
+    obtain ⟨os', rfl⟩ : ∃ os', os = os' + 1 := ⟨os - 1, by omega⟩
+    obtain ⟨t, a, m, k, rest, e, h1, h2, h3, h4⟩ := h
+    subst e
+    unfold contentAt at hc
+    simp only [Node.kids] at hc
+    have hk : UL S os' (if rest = [] then oe - 1 else 0) k := by
+      rcases h4 with ⟨hr, hu⟩ | ⟨hr, hu, _⟩
+      · rw [if_pos hr]; exact hu
+      · rw [if_neg hr]; exact hu
+    have := UL_fsize_ge S sd os' _ k F hk (by omega) hc
+    simp only [fsize, Node.size_elem]
+    omega
+
+theorem RL_succ_fsize (S : Schema) (b : Nat) (G : List Node) (h : RL S (b + 1) G) : 2 ≤ fsize G := by
+  obtain ⟨init, t, a, m, k, e, _⟩ := h
+  subst e
+  simp [fsize_append]
+  omega
+
+theorem spineR_cons_ne_nil (n : Node) (rest : List Node) (h : rest ≠ []) : spineR (n :: rest) = spineR rest := by
+  have := spineR_append_ne_nil [n] rest h
+  simpa using this
+
+/-- `open_end_count ≥ 0` (sizes) forces a single chain down to the fragment -/
+theorem UL_pure_of_size (S : Schema) : ∀ (sd os oe : Nat) (c F : List Node), UL S os oe c → sd ≤ os →
+    contentAt c sd = .ok F → oe ≤ spineR c → fsize c ≤ fsize F + sd + oe → pureTo sd c F ∧ sd ≤ oe
+  | 0, os, oe, c, F, _, _, hc, _, _ => by
+    have := pure_ok hc
+    subst this
+    exact ⟨rfl, Nat.zero_le _⟩
+  | sd + 1, os, oe, c, F, h, hle, hc, hsp, hsz => by
+    obtain ⟨os', rfl⟩ : ∃ os', os = os' + 1 := ⟨os - 1, by omega⟩
+    obtain ⟨t, a, m, k, rest, e, h1, h2, h3, h4⟩ := h
+    subst e
+    unfold contentAt at hc
+    simp only [Node.kids] at hc
+    simp only [fsize, Node.size_elem] at hsz
+    rcases h4 with ⟨hr, hu⟩ | ⟨hr, hu, hrl⟩
+    · subst hr
+      have hge := UL_fsize_ge S sd os' _ k F hu (by omega) hc
+      simp only [fsize] at hsz
+      rw [spineR_singleton_elem] at hsp
+      obtain ⟨hp, hs⟩ := UL_pure_of_size S sd os' (oe - 1) k F hu (by omega) hc (by omega) (by omega)
+      exact ⟨⟨t, a, m, k, rfl, hp⟩, by omega⟩
+    · exfalso
+      have hge := UL_fsize_ge S sd os' _ k F hu (by omega) hc
+      rw [spineR_cons_ne_nil _ _ hr] at hsp
+      have := two_spineR_le_fsize rest
+      omega
+
+/-- `open_at_end` of `drop_node` (sizes): a single chain, or the open end is shallower than the level -/
+theorem UL_pure_or_shallow (S : Schema) : ∀ (sd os oe : Nat) (c F : List Node), UL S os oe c → sd ≤ os →
+    contentAt c sd = .ok F → fsize c ≤ fsize F + 2 * sd → pureTo sd c F ∨ oe < sd
+  | 0, os, oe, c, F, _, _, hc, _ => by
+    have := pure_ok hc
+    subst this
+    exact .inl rfl
+  | sd + 1, os, oe, c, F, h, hle, hc, hsz => by
+    obtain ⟨os', rfl⟩ : ∃ os', os = os' + 1 := ⟨os - 1, by omega⟩
+    obtain ⟨t, a, m, k, rest, e, h1, h2, h3, h4⟩ := h
+    subst e
+    unfold contentAt at hc
+    simp only [Node.kids] at hc
+    simp only [fsize, Node.size_elem] at hsz
+    rcases h4 with ⟨hr, hu⟩ | ⟨hr, hu, hrl⟩
+    · subst hr
+      simp only [fsize] at hsz
+      rcases UL_pure_or_shallow S sd os' (oe - 1) k F hu (by omega) hc (by omega) with hp | hs
+      · exact .inl ⟨t, a, m, k, rfl, hp⟩
+      · exact .inr (by omega)
+    · right
+      have hge := UL_fsize_ge S sd os' _ k F hu (by omega) hc
+      cases oe with
+      | zero => omega
+      | succ b =>
+        have := RL_succ_fsize S b rest hrl
+        omega
+
+/-- dropping the only child at the end of a single chain: the open end goes with it -/
+theorem UL_drop_pure (S : Schema) : ∀ (d os oe : Nat) (c F0 c' : List Node), pureTo (d + 1) c F0 → UL S os oe c →
+    d + 1 ≤ os → dropFromFragment c d 1 = .ok c' → UL S d (min oe d) c'
+  | 0, os, oe, c, F0, c', ⟨t, a, m, k, hc, _⟩, _, _, hd => by
+    subst hc
+    have := pure_ok hd
+    subst this
+    simp [UL, RL]
+  | d + 1, os, oe, c, F0, c', ⟨t, a, m, k, hc, hk⟩, h, hle, hd => by
+    subst hc
+    obtain ⟨os', rfl⟩ : ∃ os', os = os' + 1 := ⟨os - 1, by omega⟩
+    obtain ⟨t2, a2, m2, k2, rest, e, h1, h2, h3, h4⟩ := h
+    simp only [List.cons.injEq, Node.elem.injEq] at e
+    obtain ⟨⟨e1, e2, e3, e4⟩, e5⟩ := e
+    subst e1; subst e2; subst e3; subst e4; subst e5
+    unfold dropFromFragment at hd
+    obtain ⟨inner, hi, hd⟩ := FM.bind_ok hd
+    have := pure_ok hd
+    subst this
+    have hm' : MarksOK S t inner :=
+      dropFromFragment_marks (fun mm => (S.nodeType t).allowsMarks mm = true) d k inner 1 hi h3
+    rcases h4 with ⟨_, hu⟩ | ⟨hr, _, _⟩
+    · have ih := UL_drop_pure S d os' (oe - 1) k F0 inner hk hu (by omega) hi
+      refine ⟨t, a, m, inner, [], rfl, h1, h2, hm', .inl ⟨rfl, ?_⟩⟩
+      rw [show min oe (d + 1) - 1 = min (oe - 1) d by omega]
+      exact ih
+    · exact absurd rfl hr
+
+/-! ### opening more of a loose-valid fragment within its spines -/
+
+theorem RL_of_valid (S : Schema) : ∀ (oe : Nat) (G : List Node), S.checkKids G = true → oe ≤ spineR G → RL S oe G
+  | 0, G, h, _ => h
+  | oe + 1, G, h, hsp => by
+    obtain ⟨t, a, m, k, hl⟩ := getLast_of_spineR G (by omega)
+    obtain ⟨init, rfl⟩ := List.getLast?_eq_some_iff.mp hl
+    rw [checkKids_append] at h
+    simp only [Bool.and_eq_true, checkKids_cons, checkKids_nil, Bool.and_true] at h
+    obtain ⟨p1, p2, p3⟩ := checkNode_elem_parts S t a m k h.2
+    rw [spineR_concat_elem] at hsp
+    exact ⟨init, t, a, m, k, rfl, h.1, p1, checkNode_elem_ty S t a m k h.2, p2, RL_of_valid S oe k p3 (by omega)⟩
+
+theorem RL_mono (S : Schema) : ∀ (oe oe' : Nat) (G : List Node), RL S oe G → oe ≤ oe' → oe' ≤ spineR G → RL S oe' G
+  | 0, oe', G, h, _, hsp => RL_of_valid S oe' G h hsp
+  | oe + 1, oe', G, ⟨init, t, a, m, k, e, h1, h2, h3, h4, h5⟩, hle, hsp => by
+    subst e
+    obtain ⟨oe'', rfl⟩ : ∃ oe'', oe' = oe'' + 1 := ⟨oe' - 1, by omega⟩
+    rw [spineR_concat_elem] at hsp
+    exact ⟨init, t, a, m, k, rfl, h1, h2, h3, h4, RL_mono S oe oe'' k h5 (by omega) (by omega)⟩
+
+theorem UL_of_valid (S : Schema) : ∀ (os oe : Nat) (G : List Node), S.checkKids G = true → os ≤ spineL G →
+    oe ≤ spineR G → UL S os oe G
+  | 0, oe, G, h, _, hsp => RL_of_valid S oe G h hsp
+  | os + 1, oe, G, h, hl, hsp => by
+    cases G with
+    | nil => simp [spineL] at hl
+    | cons n rest =>
+      cases n with
+      | text s m => simp [spineL] at hl
+      | leaf t a m => simp [spineL] at hl
+      | elem t a m k =>
+        simp only [spineL_elem_cons] at hl
+        simp only [checkKids_cons, Bool.and_eq_true] at h
+        obtain ⟨p1, p2, p3⟩ := checkNode_elem_parts S t a m k h.1
+        refine ⟨t, a, m, k, rest, rfl, p1, checkNode_elem_ty S t a m k h.1, p2, ?_⟩
+        by_cases hr : rest = []
+        · subst hr
+          rw [spineR_singleton_elem] at hsp
+          exact .inl ⟨rfl, UL_of_valid S os (oe - 1) k p3 (by omega) (by omega)⟩
+        · rw [spineR_cons_ne_nil _ _ hr] at hsp
+          exact .inr ⟨hr, UL_of_valid S os 0 k p3 (by omega) (Nat.zero_le _), RL_of_valid S oe rest h.2 hsp⟩
+
+/-- **opening more**: a loose-valid fragment stays loose-valid for deeper open depths within its spines (what gets
+    opened are valid nodes) -/
+theorem UL_mono (S : Schema) : ∀ (os' os oe oe' : Nat) (c : List Node), UL S os oe c → os ≤ os' → oe ≤ oe' →
+    os' ≤ spineL c → oe' ≤ spineR c → UL S os' oe' c
+  | 0, os, oe, oe', c, h, hle, hle2, _, hsp => by
+    have : os = 0 := by omega
+    subst this
+    exact RL_mono S oe oe' c h hle2 hsp
+  | os' + 1, os, oe, oe', c, h, hle, hle2, hl, hsp => by
+    cases c with
+    | nil => simp [spineL] at hl
+    | cons n rest =>
+      cases n with
+      | text s m => simp [spineL] at hl
+      | leaf t a m => simp [spineL] at hl
+      | elem t a m k =>
+        simp only [spineL_elem_cons] at hl
+        cases os with
+        | zero =>
+          cases oe with
+          | zero => exact UL_of_valid S (os' + 1) oe' _ h (by simp only [spineL_elem_cons]; omega) hsp
+          | succ oe0 =>
+            obtain ⟨init, tl, al, ml, kl, e, r1, r2, r3, r4, r5⟩ := h
+            cases init with
+            | nil =>
+              simp only [List.nil_append, List.cons.injEq, Node.elem.injEq] at e
+              obtain ⟨⟨e1, e2, e3, e4⟩, e5⟩ := e
+              subst e1; subst e2; subst e3; subst e4; subst e5
+              rw [spineR_singleton_elem] at hsp
+              refine ⟨t, a, m, k, [], rfl, r2, r3, r4, .inl ⟨rfl, ?_⟩⟩
+              exact UL_mono S os' 0 oe0 (oe' - 1) k r5 (Nat.zero_le _) (by omega) (by omega) (by omega)
+            | cons x xs =>
+              simp only [List.cons_append, List.cons.injEq] at e
+              obtain ⟨e1, e2⟩ := e
+              subst e1; subst e2
+              simp only [checkKids_cons, Bool.and_eq_true] at r1
+              obtain ⟨p1, p2, p3⟩ := checkNode_elem_parts S t a m k r1.1
+              have hne : xs ++ [Node.elem tl al ml kl] ≠ [] := by simp
+              rw [spineR_cons_ne_nil _ _ hne] at hsp
+              refine ⟨t, a, m, k, _, rfl, p1, checkNode_elem_ty S t a m k r1.1, p2, .inr ⟨hne, ?_, ?_⟩⟩
+              · exact UL_of_valid S os' 0 k p3 (by omega) (Nat.zero_le _)
+              · exact RL_mono S (oe0 + 1) oe' _ ⟨xs, tl, al, ml, kl, rfl, r1.2, r2, r3, r4, r5⟩ hle2 hsp
+        | succ os0 =>
+          obtain ⟨t2, a2, m2, k2, rest2, e, h1, h2, h3, h4⟩ := h
+          simp only [List.cons.injEq, Node.elem.injEq] at e
+          obtain ⟨⟨e1, e2, e3, e4⟩, e5⟩ := e
+          subst e1; subst e2; subst e3; subst e4; subst e5
+          refine ⟨t, a, m, k, rest, rfl, h1, h2, h3, ?_⟩
+          rcases h4 with ⟨hr, hu⟩ | ⟨hr, hu, hrl⟩
+          · subst hr
+            rw [spineR_singleton_elem] at hsp
+            exact .inl ⟨rfl, UL_mono S os' os0 (oe - 1) (oe' - 1) k hu (by omega) (by omega) (by omega) (by omega)⟩
+          · rw [spineR_cons_ne_nil _ _ hr] at hsp
+            exact .inr ⟨hr, UL_mono S os' os0 0 0 k hu (by omega) (Nat.le_refl _) (by omega) (Nat.zero_le _),
+              RL_mono S oe oe' rest hrl hle2 hsp⟩
 
 end PM
